@@ -211,3 +211,36 @@ Definition parse_bmp (b : bytes) : out (option (list Z)) :=
     bind (bmp_units (length b') b') (fun us => Val (Some us))).
 
 (* utf16.Decode followed by Go's string conversion is library code; the harness compares code units *)
+
+(* ---------- e_subject_dn_not_printable_characters: the rune loop over every attribute value ---------- *)
+From ZL Require Import Kernels.Utf8.
+Open Scope Z_scope.
+
+(* utf8.DecodeRune on the head of s: (is the rune a control character of the two reported ranges?, size).  Only
+   one- and two-byte runes can fall into U+0000..U+001F / U+007F..U+009F; an invalid encoding decodes to U+FFFD, size 1. *)
+Definition ctl_rune (s : bytes) : bool * nat :=
+  match rune_len s with
+  | Some 1%nat => (match s with b :: _ => (b <? 32)%N || (b =? 127)%N | [] => false end, 1%nat)
+  | Some 2%nat => (match s with b0 :: b1 :: _ => (b0 =? 194)%N && (b1 <=? 159)%N | _ => false end, 2%nat)
+  | Some n => (false, n)
+  | None => (false, 1%nat)
+  end.
+
+(* for len(bytes) > 0 { r, size := DecodeRune(bytes); if control(r) return Error; bytes = bytes[size:] } *)
+Fixpoint value_has_ctl (fuel : nat) (s : bytes) : out bool :=
+  match fuel with
+  | O => Val false
+  | S f =>
+      match s with
+      | [] => Val false
+      | _ => let '(c, n) := ctl_rune s in
+             if c then Val true
+             else bind (slice s (Z.of_nat n) (zlen s)) (fun rest => value_has_ctl f rest)
+      end
+  end.
+
+Fixpoint dn_not_printable (vals : list bytes) : out Z :=
+  match vals with
+  | [] => Val 3
+  | v :: r => bind (value_has_ctl (length v) v) (fun c => if c then Val 6 else dn_not_printable r)
+  end.
